@@ -14,7 +14,8 @@ def run(rep, kf, tier, seed):
     import contracts.add_parameters as cap
     import contracts.responses_c as crc
     import contracts.refs as crefs
-    engine_b.discharge(rep, kf, [crefs.update_schemas_contract()], "C07", tier, seed)
+    import contracts.endpoint_from_data as cefd
+    engine_b.discharge(rep, kf, [crefs.update_schemas_contract(), cefd.from_data_contract()], "C07", tier, seed)
     engine_b.discharge(rep, kf, creg.all_contracts() + cfp.all_contracts() + [cap.add_parameters_contract(), crc.response_contract()],
                        "C07", tier, seed)
     run_bounded(rep, kf, "C07", ["body_media", "enum_values", "model_properties", "param_conflicts", "name_collision", "body_refs", "schema_accounting"], tier)
